@@ -69,6 +69,8 @@ BinOK(i, r0) ==
        /\ r.bin <= r.bin1
        /\ (PrevIs(i, "bin") /\ Rows[i - 1].n < n => Rows[i - 1].bin <= r.bin))
   /\ G("Fragmentation25", i, kd, (n > 64 /\ med) => (r.bsz - n) * 4 <= n)
+  \* ... and for the large sizes (served by a page of their own, rounded by _mi_os_good_alloc_size): the block that really serves the request
+  /\ G("Fragmentation25", i, kd, (~med /\ r.pbs >= 0 /\ n + Pad <= LargeObjMax) => (r.pbs - (n + Pad)) * 4 <= n + Pad)
   /\ G("GoodAtLeast", i, kd, r.good >= n)
   \* padded (debug/secure) builds: mi_good_size includes MI_PADDING_SIZE, so the fixed point is taken modulo the padding
   /\ G("GoodIdempotent", i, kd, IF Pad = 0 THEN r.g2 = r.good ELSE (r.g2 = r.good \/ r.g2p = r.good))
